@@ -189,6 +189,19 @@ impl<T: Send + Sync + 'static> Probe<T> {
                     o.push(format!("kick {}", i.name));
                 }
             }
+            // ... or complete / fail at once
+            for i in g.insts.iter() {
+                if i.live() && g.pups[i.pup - 1].mode != PMode::Pull {
+                    o.push(format!("kickend {}", i.name));
+                }
+            }
+            if cfg.allow_fail {
+                for i in g.insts.iter() {
+                    if i.live() && g.pups[i.pup - 1].mode != PMode::Pull {
+                        o.push(format!("kickfail {}", i.name));
+                    }
+                }
+            }
         }
         o
     }
@@ -245,7 +258,11 @@ impl<T: Send + Sync + 'static> Probe<T> {
                     env.set_owner(prev);
                     return;
                 }
-                if let Some(name) = other.strip_prefix("kick ") {
+                let (what, name) = match other.split_once(' ') {
+                    Some((w, n)) if w == "kick" || w == "kickend" || w == "kickfail" => (w, n),
+                    _ => ("", ""),
+                };
+                if !what.is_empty() {
                     let (ix, pup) = {
                         let g = env.lock();
                         match g.insts.iter().position(|i| i.name == name) {
@@ -255,7 +272,11 @@ impl<T: Send + Sync + 'static> Probe<T> {
                     };
                     let k = env.kicker.lock().unwrap_or_else(|e| e.into_inner()).clone();
                     if let Some(k) = k {
-                        k(ix, pup);
+                        k(ix, pup, match what {
+                            "kickend" => "end",
+                            "kickfail" => "fail",
+                            _ => "emit",
+                        });
                     }
                 }
             },
@@ -454,9 +475,19 @@ impl<T: Send + Sync + 'static> Puppet<T> {
                         opts.extend(self.answer_opts(ix));
                         opts.push("defer");
                     }
+                    // an eagerly completing source: answers with its last datum and completes at once
+                    if mode == PMode::Any && env.with_inst(ix, |i| i.sent) < env.cfg().max_data {
+                        opts.push("dataend");
+                    }
                     let c = env.decide("onpull", &name, &opts);
                     match c.as_str() {
                         "data" => self.emit(ix),
+                        "dataend" => {
+                            self.emit(ix);
+                            if env.with_inst(ix, |i| i.live()) {
+                                self.end(ix);
+                            }
+                        },
                         "end" => self.end(ix),
                         "err" => self.fail(ix),
                         "defer" => {
